@@ -15,6 +15,7 @@ Graph representation used everywhere in /verif/runtime:
 Node i is the task `//:t<i>` unless a module says otherwise.
 """
 import copy
+import functools
 import itertools
 import json
 import os
@@ -155,6 +156,7 @@ def labelled_digraphs(n, self_loops=True):
         yield tuple(tuple(a) for a in adj)
 
 
+@functools.lru_cache(maxsize=None)
 def labelled_dags(n):
     """All labelled DAGs on 0..n-1 (1, 3, 25, 543, 29281 for n = 1..5): the images
     of the forward DAGs under every relabelling, without repetition, sorted."""
@@ -166,7 +168,7 @@ def labelled_dags(n):
             for i in range(n):
                 img[perm[i]] = tuple(sorted(perm[j] for j in adj[i]))
             seen.add(tuple(img))
-    return sorted(seen)
+    return tuple(sorted(seen))
 
 
 def forward_dag_orders(max_n, min_n=1):
@@ -540,7 +542,8 @@ class IndexFactory:
             # values; containers must not be shared between copies
             if isinstance(v, (dict, set, list)):
                 setattr(ti, k, type(v)())
-        ti._loaded_raw_tasks = {pathlib.Path(p): dict(ts) for p, ts in raw_by_file.items()}
+        ti._loaded_raw_tasks = {(p if isinstance(p, pathlib.Path) else pathlib.Path(p)): dict(ts)
+                                for p, ts in raw_by_file.items()}
         return ti
 
 
